@@ -14,7 +14,9 @@ LEAN_MODULES = ["FimVerif.Proofs.C09", "FimVerif.Drivers.TopoRun"]
 P = "FimVerif.C09."
 THEOREMS = [P + t for t in (
     "atomic_addGNode", "atomic_nodeNew", "atomic_addNode", "atomic_setProps", "atomic_unsetProp", "atomic_rename",
-    "atomic_removeLink", "atomic_ifaceNew_orphan")]
+    "atomic_ifaceNew_orphan", "atomic_ifaceNew", "atomic_addInterface", "atomic_linkNew", "atomic_addLink",
+    "atomic_connectInterface", "atomic_connectInterface_bogus", "atomic_addNetworkService_le1", "atomic_nodeAddService_le1",
+    "atomic_op", "addComponent_counterexample")]
 TRUSTED_BASE = [
     "Model/Topo.lean mirrors by hand the control flow of fim/user/{topology,node,component,network_service,interface,link}.py and the "
     "add_*/remove_* sliver functions of abc_property_graph.py over NetworkXPropertyGraph primitives; checked differentially on every call "
@@ -26,9 +28,16 @@ TRUSTED_BASE = [
     "of add_node's id check",
     "uuid4 freshness: generated ids are modelled as a counter disjoint from caller-supplied ids",
     "set iteration order (lists of neighbours) is canonicalised by sorting before comparison",
+    "Topo.step / TopoOp (the alphabet atomic_op quantifies over) wraps the same functions the driver calls, one constructor per request kind; "
+    "the driver itself still dispatches on the request string",
+    "hypotheses of the guarded theorems (Covered): node ids distinct and no dangling edge (Topo.IdsDistinct/Closed - invariants of reachable "
+    "models, proved for the primitives in C07), uuid freshness (FreshArgs), interface handles refer to ConnectionPoints, NameHyp (derived link name valid)",
 ]
 ASSUMPTIONS = [
     "single-threaded use; NetworkX backend (the API's default); names are ASCII",
+    "PARTIAL: atomic_op covers add_node, set/unset property, rename, add_interface, add_link, connect_interface, add_network_service (topology "
+    "and node level) with <= 1 interface; open: service creation with >= 2 interfaces (rollback induction), add_component/add_storage "
+    "(experiment flavour; substrate is a known finding with addComponent_counterexample), add_facility/add_switch, disconnect and all removals",
     "not modelled (so outside the proved claim): peer/unpeer, add_child_interface/remove_child_interface, PortMirrorService, prune, "
     "comp_model= form of add_component, interface_labels other than empty Labels()",
     "'model' = the graph the store holds for the topology's graph id plus the _interfaces cache of the handle the call was made on; "
@@ -165,6 +174,16 @@ def systematic_cases(flavour):
         out.append(("add_service/dup-name", pre + [{"op": "add_service", "name": "pre", "nstype": "L2Bridge", "ifs": ["h3"], "kw": []}]))
         out.append(("ns_add_interface/stale-svc", pre + [{"op": "remove_service", "name": "pre"},
                                                           {"op": "ns_add_interface", "svc": "h10", "name": "ii", "itype": "TrunkPort", "kw": []}]))
+        longn = "n" * 244       # ServicePort name 252 chars is valid, the derived link name (257) is not
+        out.append(("connect/derived-link-name-too-long", [
+            {"op": "add_node", "name": longn, "site": "RENC", "ntype": "VM", "kw": []},
+            {"op": "add_component", "parent": "h0", "name": "nic1", "ctype": "SmartNIC", "model": "ConnectX-6", "kw": []},
+            {"op": "add_service", "name": "s1", "nstype": "L2Bridge", "ifs": [], "kw": []},
+            {"op": "connect", "svc": "h4", "if": "h2"}]))
+        out.append(("add_service/derived-link-name-too-long", [
+            {"op": "add_node", "name": longn, "site": "RENC", "ntype": "VM", "kw": []},
+            {"op": "add_component", "parent": "h0", "name": "nic1", "ctype": "SmartNIC", "model": "ConnectX-6", "kw": []},
+            {"op": "add_service", "name": "s1", "nstype": "L2Bridge", "ifs": ["h2"], "kw": []}]))
         out.append(("add_storage/dup-name", pre + [{"op": "add_storage", "parent": "h0", "name": "nic1", "kw": []}]))
     else:
         pre = base
@@ -287,7 +306,7 @@ def correspondence(ctx, res):
     for fl in ("exp", "sub"):
         for tag, ops in systematic_cases(fl):
             hs.append(run_history(fl, ops))
-    n = ctx.scale(60, 600)
+    n = ctx.scale(60, 300)
     for i in range(n):
         fl = "exp" if i % 3 else "sub"
         hs.append(random_history(ctx, "corr/%d" % i, fl, ctx.scale(25, 40), 0.3))
@@ -314,7 +333,7 @@ def oracle(ctx, res, budget=None):
     for fl in ("exp", "sub"):
         for tag, ops in systematic_cases(fl):
             run_case(tag, fl, ops)
-    n = budget or ctx.scale(80, 900)
+    n = budget or ctx.scale(80, 450)
     for i in range(n):
         fl = "exp" if i % 3 else "sub"
         rng = ctx.sub_rng("oracle/%d" % i)
